@@ -128,15 +128,15 @@ where
         DynHead(_) | ObsDynHead(_) => (Vector::new(), Box::pin(obs.dynamic_head(lim.unwrap()))),
         DynTail(_) | ObsDynTail(_) => (Vector::new(), Box::pin(obs.dynamic_tail(lim.unwrap()))),
         DynSkip(_) | ObsDynSkip(_) => (Vector::new(), Box::pin(obs.dynamic_skip(lim.unwrap()))),
-        DynHeadInit(n, _) => {
+        DynHeadInit(n, _) | ObsDynHeadInit(n, _) => {
             let (v, s) = obs.dynamic_head_with_initial_value(n, lim.unwrap());
             (v, Box::pin(s))
         }
-        DynTailInit(n, _) => {
+        DynTailInit(n, _) | ObsDynTailInit(n, _) => {
             let (v, s) = obs.dynamic_tail_with_initial_value(n, lim.unwrap());
             (v, Box::pin(s))
         }
-        DynSkipInit(n, _) => {
+        DynSkipInit(n, _) | ObsDynSkipInit(n, _) => {
             let (v, s) = obs.dynamic_skip_with_initial_count(n, lim.unwrap());
             (v, Box::pin(s))
         }
@@ -208,6 +208,7 @@ pub fn build_chain<I: DiffItem>(
                 Some(l) => {
                     let base = match s {
                         StageSpec::DynHeadInit(n, _) | StageSpec::DynTailInit(n, _) | StageSpec::DynSkipInit(n, _) => n,
+                        StageSpec::ObsDynHeadInit(n, _) | StageSpec::ObsDynTailInit(n, _) | StageSpec::ObsDynSkipInit(n, _) => n,
                         _ => 0,
                     };
                     let (b, idx) = make_limit(l, base, s.is_tail(), &input, upstream, env, cs, limits);
@@ -227,6 +228,10 @@ pub fn build_chain<I: DiffItem>(
                 StageSpec::ObsDynHead(_) => apply_stage(obs.dynamic_head(l1.unwrap()), next, l2),
                 StageSpec::ObsDynTail(_) => apply_stage(obs.dynamic_tail(l1.unwrap()), next, l2),
                 StageSpec::ObsDynSkip(_) => apply_stage(obs.dynamic_skip(l1.unwrap()), next, l2),
+                // the adapter half only: its own initial values are dropped on purpose
+                StageSpec::ObsDynHeadInit(n, _) => apply_stage(obs.dynamic_head_with_initial_value(n, l1.unwrap()).1, next, l2),
+                StageSpec::ObsDynTailInit(n, _) => apply_stage(obs.dynamic_tail_with_initial_value(n, l1.unwrap()).1, next, l2),
+                StageSpec::ObsDynSkipInit(n, _) => apply_stage(obs.dynamic_skip_with_initial_count(n, l1.unwrap()).1, next, l2),
                 _ => unreachable!(),
             }
         } else {
